@@ -49,8 +49,12 @@ def bfs(ctx, step, ops, max_depth, init=None, label="", max_states=None, count_o
                         r2 = step(h2)
                     except HarnessError:
                         raise
-                    except Exception:
-                        raise HarnessError("step crashed on history %s\n%s" % (json.dumps(h2, default=str), traceback.format_exc()))
+                    except Exception as e:
+                        from .runner import library_exception
+                        lib = library_exception(e)
+                        if lib is None:
+                            raise HarnessError("step crashed on history %s\n%s" % (json.dumps(h2, default=str), traceback.format_exc()))
+                        r2 = {"key": None, "viol": [(lib[0], "%s history %s: %s" % (ctx.pid, json.dumps(h2, default=str)[:300], lib[1]))], "expand": False}
                     ws.transitions += 1
                     ws.traces += 1
                     ws.evaluations += 1
